@@ -11,7 +11,7 @@
    simulation cases are not proved): comp_correct_partial.  Its core is the generalised lemma
    comp_expr_context_independent (SimExpr.sim_expr). *)
 From Coq Require Import ZArith NArith List Bool.
-From KV.comp Require Import Ast0 Sem0 Instr0 Comp0 VM0 Known0 InstrLemmas CompLemmas SimBase SimExpr SimAll SimProg.
+From KV.comp Require Import Ast0 Sem0 Instr0 Comp0 VM0 Known0 InstrLemmas CompLemmas SimBase SimExpr SimQ SimAll SimProg.
 Import ListNotations.
 Open Scope N_scope.
 
@@ -19,7 +19,7 @@ Open Scope N_scope.
    byte-identical to koto_bytecode on every generated case) run by the VM (model VM0 on the bytes)
    gives exactly the value / the error class of the reference semantics *)
 Theorem comp_correct_partial : forall p fuel ch,
-  p <> [] -> all_list frag p = true -> known_C01 p = false ->
+  all_list frag p = true -> wf0 p = true -> known_C01 p = false ->
   compile p = OK ch ->
   match Sem0.run fuel p with
   | Done v => exists n, VM0.run n ch = VDone v
@@ -31,16 +31,14 @@ Print Assumptions comp_correct_partial.
 
 (* "The outcome of an expression does not depend on the code that surrounds it": for every
    expression of the fragment, every compile state (any assigned / reserved locals, any number of
-   live temporaries), every result mode None / Any / Fixed r and every set D of half-written
-   variables the expression does not read: the emitted code, run from a register file that agrees
-   with the environment, ends at the end of the code in a register file that agrees again, with
-   Sem0's value in the designated register, every other live register untouched -- or stops with
-   Sem0's error. *)
-Theorem comp_expr_context_independent : forall pool e, frag e = true ->
-  forall r st out st' c, comp pool e r st = OK (out, st', c) -> wfst st ->
-    dropped (is_none r) e = false ->
-    facts st r out st' c e /\ dyn pool e r st out st' c.
-Proof. exact sim_expr. Qed.
+   live temporaries, any enclosing loop), every result mode None / Any / Fixed r and every set D of
+   half-written variables the expression does not read: the emitted code, run from a register file
+   that agrees with the environment, ends at the end of the code in a register file that agrees
+   again, with Sem0's value in the designated register and every other live register untouched --
+   or takes the break / continue edge of the enclosing loop with the loop's result register set --
+   or stops with Sem0's error (Q = compile-time facts + this run-time statement, SimQ.v). *)
+Theorem comp_expr_context_independent : forall pool e, frag e = true -> Q pool e.
+Proof. intros pool e F. apply sim_all. exact F. Qed.
 Print Assumptions comp_expr_context_independent.
 
 (* K1 on the faithful model: `x = 5; y = true; x = y and x; x` *)
@@ -88,11 +86,11 @@ Print Assumptions decode_encode.
 Example nonvacuous_theorem_applies :
   let p := [EAssign 0 (EInt 9223372036854775807); EAssign 1 (EArith OAdd (EId 0) (EInt 1));
             EAssign 0 (ELogic LOr (EId 1) (EInt 3)); EArith OMul (EId 0) (EInt 2)] in
-  p <> [] /\ all_list frag p = true /\ known_C01 p = false /\
+  all_list frag p = true /\ wf0 p = true /\ known_C01 p = false /\
   Sem0.run 10 p = Done (VInt 0) /\
   exists ch, compile p = OK ch /\ VM0.run 100 ch = VDone (VInt 0).
 Proof.
-  cbv zeta. splits; try discriminate;
+  cbv zeta. splits;
     try match goal with |- exists ch, compile ?p = OK ch /\ _ =>
       let c := eval vm_compute in (compile p) in
       match c with OK ?ch => exists ch; split end end;
